@@ -19,7 +19,8 @@ package main
 //        late    — all logging calls have returned, slow writer, the queue is occupied when the flush is requested;
 //        fullq   — the writer is blocked until the queue is full and senders block; then released, then flush;
 //        quiesce — no flush: everything logged is written by the background flusher;
-//        panic   — entries are logged, then the goroutine panics under tars.CheckPanic (flush, os.Exit);
+//        panic   — entries are logged, then the goroutine panics under tars.CheckPanic (flush, os.Exit); in half of them
+//                  the stack dump file cannot be created (argv[0] under /proc/self) and a slow writer keeps entries pending;
 //        runexit — entries are logged while tars.Run is running; SIGTERM; Run returns through its deferred FlushLogger;
 //        second  — flush, log again, flush again (FlushLogger is one-shot in the code: known finding).
 
@@ -72,6 +73,9 @@ type c20Scenario struct {
 	Seed  int64  `json:"seed"`
 	Pad   int    `json:"pad"` // maximal padding of an entry, bytes
 	Dir   string `json:"dir,omitempty"`
+	// panic mode: the child runs with an argv[0] under /proc/self, so debug.DumpStack cannot create its file
+	// "panic.<time>" next to the binary (as with a read-only or full installation directory)
+	NoDump bool `json:"nodump,omitempty"`
 }
 
 type c20ChildOut struct {
@@ -674,6 +678,9 @@ func c20Child(sc c20Scenario) (c20ChildOut, string) {
 		}
 	}
 	cmd := exec.Command(bin, "c20-worker")
+	if sc.NoDump {
+		cmd.Args[0] = "/proc/self/c20-nodump" // os.Args[0] of the child: its directory exists but no file can be created in it
+	}
 	b, _ := json.Marshal(sc)
 	cmd.Stdin = strings.NewReader(string(b))
 	cmd.Env = append(os.Environ(), "GOTRACEBACK=single")
@@ -891,6 +898,11 @@ func c20Gen(tier string, rng *rand.Rand) []c20Case {
 			sc.G = 1 + rng.Intn(6)
 			sc.N = 1 + rng.Intn(30)
 			sc.Delay = []int{0, 0, 50}[rng.Intn(3)]
+			if rng.Intn(2) == 0 { // the stack dump fails, entries still pending behind a slow writer
+				sc.NoDump = true
+				sc.Delay = 50
+				sc.N = 3 + rng.Intn(12)
+			}
 		case "runexit":
 			sc.G = 1 + rng.Intn(6)
 			sc.N = 1 + rng.Intn(30)
@@ -1068,7 +1080,11 @@ func init() {
 				if c.Sc.Delay > 0 {
 					d = "d+"
 				}
-				return fmt.Sprintf("%s/G%d/W%d/l%d/%s/j%v/p%d/%s", c.Sc.Mode, c.Sc.G, c.Sc.W, c.Sc.Last*c.Sc.LastN, d, c.Sc.JSON, c.Sc.Procs, c20QBucket(c.QLen))
+				m := c.Sc.Mode
+				if c.Sc.NoDump {
+					m += "-nodump"
+				}
+				return fmt.Sprintf("%s/G%d/W%d/l%d/%s/j%v/p%d/%s", m, c.Sc.G, c.Sc.W, c.Sc.Last*c.Sc.LastN, d, c.Sc.JSON, c.Sc.Procs, c20QBucket(c.QLen))
 			},
 			Extra: func(tier string, rng *rand.Rand, res *Result) {
 				res.Traces = len(res.Cases)
